@@ -227,6 +227,7 @@ func main() {
 	for _, c := range []string{"unknown-input", "coins-created", "coins-destroyed", "hours-created", "wrong-owner", "dup-output", "zero-coin", "bad-length", "out-hours-overflow", "hard+soft"} {
 		r.Floor("node.class."+c, 5)
 	}
+	r.Floor("fn.forged-length.cases", 100)
 	r.Floor("node.foreign.admitted-clean", 20)
 	r.Floor("node.foreign.admitted-with-soft-error", 20)
 	r.Floor("node.foreign.refused-hard", 20)
@@ -562,6 +563,15 @@ func genFn(g *rand.Rand) fnCase {
 		c.VP.MaxTransactionSize = 1024
 		c.SizeMode = "1024"
 	}
+	// the header's Length field is data supplied by whoever built the transaction: the size rule
+	// speaks about the encoded size, whatever the field claims (hard rules check the field)
+	if g.Intn(12) == 0 {
+		forged := []uint32{0, 1, 100, size - 1, size + 1, c.VP.MaxTransactionSize, c.VP.MaxTransactionSize + 1, ^uint32(0)}
+		c.T.Length = forged[g.Intn(len(forged))]
+		if c.T.Length != size {
+			c.Notes = append(c.Notes, "forged-length")
+		}
+	}
 	return c
 }
 
@@ -600,6 +610,9 @@ func evalFn(c *fnCase, sample bool) {
 	r.Count("fn.sizemode."+c.SizeMode, 1)
 	if has(c.Notes, "head-before-output") {
 		r.Count("fn.head-before-output.cases", 1)
+	}
+	if has(c.Notes, "forged-length") {
+		r.Count("fn.forged-length.cases", 1)
 	}
 	r.Distinct(fmt.Sprintf("fn:%s:%s:%s:%d:%d", join(v.Broken), c.Target, c.SizeMode, c.VP.BurnFactor, c.VP.MaxDropletPrecision))
 	if sample {
